@@ -149,18 +149,25 @@ def r2_colours(ctx):
         except NotLoopFree:
             return f, None
         return f, ps
-    f, ps = ret_of(BB + "is_valid")
-    t = ps[0].ret() if ps and len(ps) == 1 else None
-    ok = bool(t) and t[0] == "un" and t[1] == "Not" and t[2][0] == "call" and t[2][1] == BB + "_is_in_check_by_bits" and t[2][2][1][0] == "call" and t[2][2][1][1] == BB + "opposite_turn"
-    ctx.ob(rid, "is_valid|not-in-check(opposite_turn)", ok, "" if ok else "is_valid returns %s" % (show(t) if t else "?"), ctx.where(f), sample={"tree": show(t) if t else None})
-    f, ps = ret_of(BB + "is_current_in_check")
-    t = ps[0].ret() if ps and len(ps) == 1 else None
-    ok = bool(t) and t[0] == "call" and t[1] == BB + "_is_in_check_by_bits" and t[2][1] == ("f", ("*", ("param", 1)), "turn")
-    ctx.ob(rid, "is_current_in_check|turn", ok, "" if ok else "is_current_in_check returns %s" % (show(t) if t else "?"), ctx.where(f))
-    f, ps = ret_of(BB + "is_in_check")
-    t = ps[0].ret() if ps and len(ps) == 1 else None
-    ok = bool(t) and t[0] == "call" and t[1] == BB + "_is_in_check_by_bits" and t[2][1] == ("f", ("*", ("param", 2)), "index")
-    ctx.ob(rid, "is_in_check|colour-index", ok, "" if ok else "is_in_check returns %s" % (show(t) if t else "?"), ctx.where(f))
+    def every_path(key, inst, pred, expected):
+        f, ps = ret_of(key)
+        if not ps:
+            ctx.lost(rid, key + " (loop-free paths)")
+            return
+        bad = [show(pe.ret()) for pe in ps if not pred(pe.ret())]
+        ctx.ob(rid, inst, not bad,
+               "" if not bad else "%s has %d path(s) whose result is not %s: it returns %s without consulting the reverse attack lookup for that colour"
+               % (f["display"], len(bad), expected, bad[:2]), ctx.where(f), sample={"function": key.rsplit("::", 1)[-1], "paths": len(ps), "result": show(ps[0].ret())})
+    TURN = ("f", ("*", ("param", 1)), "turn")
+    every_path(BB + "is_valid", "is_valid|not-in-check(opposite_turn)",
+               lambda t: t[0] == "un" and t[1] == "Not" and t[2][0] == "call" and t[2][1] == BB + "_is_in_check_by_bits" and t[2][2][0] == ("param", 1) and t[2][2][1][0] == "call" and t[2][2][1][1] == BB + "opposite_turn",
+               "!_is_in_check_by_bits(self, opposite_turn())")
+    every_path(BB + "is_current_in_check", "is_current_in_check|turn",
+               lambda t: t[0] == "call" and t[1] == BB + "_is_in_check_by_bits" and t[2][0] == ("param", 1) and t[2][1] == TURN,
+               "_is_in_check_by_bits(self, self.turn)")
+    every_path(BB + "is_in_check", "is_in_check|colour-index",
+               lambda t: t[0] == "call" and t[1] == BB + "_is_in_check_by_bits" and t[2][0] == ("param", 1) and t[2][1] == ("f", ("*", ("param", 2)), "index"),
+               "_is_in_check_by_bits(self, colour.index)")
     f, ps = ret_of(BB + "opposite_turn")
     if ps:
         inl = Inliner(prog, only=lambda k: k.endswith("::opposite_color"))
